@@ -86,7 +86,8 @@ def path_enum(engine, ctx, params):
     bad, ctext, lex = compare(ctx, it, text.ch, lr, v.variant)
     if bad is None:
         return {'status': 'ok', 'sample': {'formatter': 'enum', 'shape': params['name'], 'text': ctext}, 'extra': {'fns': list(it.fn_seen), 'native': {'op': 'lex_parse', 'args': ['ascii', hexs(ctext)], 'interp': ['ok', lex]}}}
-    return {'status': 'violation', 'kind': 'enum-output', 'shape': params['name'], 'what': bad, 'text': ctext, 'message': bad, 'fns': list(it.fn_seen)}
+    cn = c01.concrete_names(names, ctx.model())
+    return {'status': 'violation', 'kind': 'enum-output', 'shape': params['name'], 'what': bad, 'text': ctext, 'tokens': narsese_tokens(subst_names(spec, cn)), 'value_kind': v.variant, 'message': bad, 'fns': list(it.fn_seen)}
 
 def path_lexical(engine, ctx, params):
     it = engine.new_interp(ctx, step_limit=900000)
@@ -104,16 +105,24 @@ def path_lexical(engine, ctx, params):
     bad, ctext, lex = compare(ctx, it, text.ch, lr, v.variant)
     if bad is None:
         return {'status': 'ok', 'sample': {'formatter': 'lexical', 'shape': params['name'], 'text': ctext}, 'extra': {'fns': list(it.fn_seen), 'native': {'op': 'lex_parse', 'args': ['ascii', hexs(ctext)], 'interp': ['ok', lex]}}}
-    return {'status': 'violation', 'kind': 'lexical-output', 'shape': params['name'], 'what': bad, 'text': ctext, 'message': bad, 'fns': list(it.fn_seen)}
+    return {'status': 'violation', 'kind': 'lexical-output', 'shape': params['name'], 'what': bad, 'text': ctext, 'tokens': lnarsese_tokens(conc_lspec(spec, ctx.model())), 'value_kind': v.variant, 'message': bad, 'fns': list(it.fn_seen)}
 
 def confirm(v, oracle):
     if v['kind'] == 'lexicon':
         return {'confirmed': True, 'replay': {'op': 'format', 'args': ['ascii', 'NT W:61']}, 'what': v['what']}
-    st, p = oracle.ask('lex_parse', 'ascii', hexs(v['text']))
-    acc, tree = peg.parse(v['text'])
+    # regenerate the text with the NATIVE formatter from the concrete value, then apply grammar + native lexical parser
+    if v['kind'] == 'enum-output':
+        st0, text = oracle.ask('format', 'ascii', v['tokens'])
+    else:
+        st0, r0 = oracle.ask('lex_rt_value', 'ascii', v['tokens']); text = r0['text'] if st0 == 'ok' else None
+    if st0 != 'ok': return {'confirmed': st0 == 'panic', 'replay': {'op': 'format', 'args': ['ascii', v['tokens']]}, 'what': 'formatter panics: %s' % text}
+    st, p = oracle.ask('lex_parse', 'ascii', hexs(text))
+    acc, tree = peg.parse(text)
     from framework import strip_all
-    bad = (not acc) or st != 'ok' or strip_all(p) != ['Ok', tree]
-    return {'confirmed': bool(bad), 'why': 'grammar and native lexical parser agree', 'replay': {'op': 'lex_parse', 'args': ['ascii', hexs(v['text'])], 'text': v['text'], 'grammar_tree': tree}, 'what': v['what']}
+    bad = (not acc) or st != 'ok' or strip_all(p) != ['Ok', tree] or tree[0] != v['value_kind']
+    return {'confirmed': bool(bad), 'why': 'grammar, value kind and native lexical parser agree on the native output %r' % text,
+            'replay': {'op': 'format' if v['kind'] == 'enum-output' else 'lex_rt_value', 'args': ['ascii', v['tokens']], 'text': text, 'grammar_tree': tree, 'value_kind': v['value_kind']},
+            'what': '%s (native output %r, grammar kind %s, value kind %s)' % (v['what'], text, tree[0] if tree else None, v['value_kind'])}
 
 def key_of(v): return '%s:%s' % (v['kind'], v.get('shape', 'lexicon').split('#')[0])
 
@@ -125,7 +134,6 @@ def main(tier, seed):
                       'the recogniser runs on one solver witness per explored path (class of names distinguished by the implementation), names restricted to letters/digits/_/inner -']
     R.run_query(Query('lexicon', 'c11', 'path_lexicon', [dict()], 'all ASCII keywords of both format instances vs the OpenNARS-compatible lexicon'), confirm, key_of)
     shapes = c01.shape_list(tier)
-    if tier == 'quick': shapes = [x for x in shapes if not x[0].startswith(('sent/', 'task/'))] + [x for x in shapes if x[0].startswith(('sent/', 'task/'))][::3]
     R.run_query(Query('enum-ascii', 'c11', 'path_enum', [dict(name=nm, spec=sp) for nm, sp in shapes], '%d enum value shapes' % len(shapes)), confirm, key_of)
     it = R.engine.new_interp(); voc = lex_vocab(it, lexical_format(it, 'ascii'))
     lsh = c02.shapes_for(voc, tier)
